@@ -213,6 +213,8 @@ type fmtConfig struct {
 	Align   bool
 	MinCol  int
 	RootFmt []string // directive lines of the workspace root (formats declared in the workspace)
+	// Conflict: two sibling files of the workspace declare the plain commodities with different formats
+	Conflict bool
 }
 
 type fmtCase struct {
@@ -246,6 +248,7 @@ func genFmtCase(r *RNG, bad [][]string) fmtCase {
 	if len(decl) > 0 {
 		if r.Chance(1, 3) {
 			fc.Cfg.RootFmt = decl
+			fc.Cfg.Conflict = r.Bool()
 		} else {
 			text = strings.Join(decl, j.EOL) + j.EOL + j.EOL + text
 		}
@@ -363,9 +366,7 @@ func runFormat(c *Ctx, idx int64, prop string) {
 	defer os.RemoveAll(dir)
 	root := len(fc.Cfg.RootFmt) > 0
 	if root {
-		os.MkdirAll(dir, 0o755)
-		os.WriteFile(filepath.Join(dir, "main.journal"), []byte(strings.Join(fc.Cfg.RootFmt, "\n")+"\n\ninclude doc.journal\n"), 0o644)
-		os.WriteFile(filepath.Join(dir, "doc.journal"), []byte(fc.Text), 0o644)
+		writeFmtRoot(dir, fc)
 	}
 	opts := map[string]any{"formatting": map[string]any{"indentSize": fc.Cfg.Indent, "alignAmounts": fc.Cfg.Align, "minAlignmentColumn": fc.Cfg.MinCol}}
 	s := NewSession(dir, SessOpt{Root: root, InitOptions: opts})
@@ -463,15 +464,33 @@ func runFormat(c *Ctx, idx int64, prop string) {
 	}
 }
 
+// writeFmtRoot writes the workspace of a case whose formats are declared outside the document: in
+// the root journal, or (Conflict) in two sibling files that declare every plain commodity with
+// different formats: the file included later wins, whatever order a map is walked in.
+func writeFmtRoot(dir string, fc fmtCase) {
+	os.MkdirAll(dir, 0o755)
+	main := strings.Join(fc.Cfg.RootFmt, "\n") + "\n\n"
+	if fc.Cfg.Conflict {
+		var a, b []string
+		for _, cm := range []string{"USD", "EUR", "GBP", "CHF"} {
+			a = append(a, "commodity 1,000.00 "+cm)
+			b = append(b, "commodity 1.000,00 "+cm)
+		}
+		os.WriteFile(filepath.Join(dir, "fa.journal"), []byte(strings.Join(a, "\n")+"\n"), 0o644)
+		os.WriteFile(filepath.Join(dir, "fb.journal"), []byte(strings.Join(b, "\n")+"\n"), 0o644)
+		main += "include fa.journal\ninclude fb.journal\n"
+	}
+	os.WriteFile(filepath.Join(dir, "main.journal"), []byte(main+"include doc.journal\n"), 0o644)
+	os.WriteFile(filepath.Join(dir, "doc.journal"), []byte(fc.Text), 0o644)
+}
+
 // formatOnce formats a case in a throw-away session and applies the edits.
 func formatOnce(c *Ctx, fc fmtCase) (string, *editProblem) {
 	dir := filepath.Join(c.Dir, "fo")
 	defer os.RemoveAll(dir)
 	root := len(fc.Cfg.RootFmt) > 0
 	if root {
-		os.MkdirAll(dir, 0o755)
-		os.WriteFile(filepath.Join(dir, "main.journal"), []byte(strings.Join(fc.Cfg.RootFmt, "\n")+"\n\ninclude doc.journal\n"), 0o644)
-		os.WriteFile(filepath.Join(dir, "doc.journal"), []byte(fc.Text), 0o644)
+		writeFmtRoot(dir, fc)
 	}
 	opts := map[string]any{"formatting": map[string]any{"indentSize": fc.Cfg.Indent, "alignAmounts": fc.Cfg.Align, "minAlignmentColumn": fc.Cfg.MinCol}}
 	s := NewSession(dir, SessOpt{Root: root, InitOptions: opts})
